@@ -9,3 +9,5 @@ pub mod routing_thread;
 pub mod stat_thread;
 pub mod util;
 pub mod verification_thread;
+#[cfg(saito_verif)]
+pub mod verif_hooks;
